@@ -8,8 +8,11 @@
    selected link and at or before the target, for ANY page table; the
    sample-accurate seek reports EXACTLY the target whenever the executable
    hypotheses seek_hyps hold (intact run from the landing point reaching the
-   target, full rate; Seek_lemmas.v).  Exact landing for every target of small
-   chained files, time seeks and end-of-file behaviour are established per run. *)
+   target, full rate; Seek_lemmas.v) or seek_hyps_e hold (the same up to and
+   including the link's end, through the block the end-of-stream packet cuts
+   short; SeekE_lemmas.v); a sample seek to the end of the last link followed
+   by a read reports end of file (seek_end_hyps).  Exact landing for every
+   target of small chained files and time seeks are established per run. *)
 From VV Require Import Blocking VFile VFile_lemmas Term_lemmas VFileDemo Sync_lemmas Seek_lemmas SeekE_lemmas.
 From Coq Require Import ZArith List Lia.
 Import ListNotations.
@@ -90,3 +93,29 @@ Print Assumptions C08_sample_seek_lands_exactly_up_to_link_end.
 Example C08_exact_landing_to_end_nonvacuous :
   forallb (fun k => seek_hyps_e demo2 (Z.of_nat k) && (v_pcm (snd (pcm_seek demo2 (Z.of_nat k))) =? Z.of_nat k)) (seq 673 28) = true.
 Proof. vm_compute. reflexivity. Qed.
+
+(* a sample-accurate seek to the end of the last link, then a read: end of file.  Hypotheses as one executable
+   test (seek_end_hyps): the seek is covered by the theorem above, no page follows the run in the file, and
+   the run closes with an end-of-stream packet whose granule position is the target *)
+Theorem C08_seek_to_end_then_end_of_file :
+  forall s pos len, seek_end_hyps s pos = true ->
+    let s' := snd (pcm_seek s pos) in
+    fst (pcm_seek s pos) = 0 /\ v_pcm s' = pos /\ fst (fst (read_float (read_fuel s') s' len)) = 0.
+Proof. exact seek_to_end_checked. Qed.
+Print Assumptions C08_seek_to_end_then_end_of_file.
+
+(* the general form: a handle whose position is truthful (up to the link's end) and equal to the position the
+   closing end-of-stream packet gives, with nothing after the run *)
+Theorem C08_truthful_at_end_then_end_of_file :
+  forall gend s pos len,
+    TruthfulE [] s pos -> EndE [] gend s -> v_pcm s = pos ->
+    pos - base_of s (v_link s) = gend - li_init (cur_link s) ->
+    fst (fst (read_float (read_fuel s) s len)) = 0.
+Proof. exact seek_end_then_eof. Qed.
+Print Assumptions C08_truthful_at_end_then_end_of_file.
+
+(* non-vacuity: the end of the one-link demo file and of the two-link one *)
+Example C08_seek_to_end_nonvacuous :
+  seek_end_hyps demo2 700 = true /\ seek_end_hyps demo4 900 = true /\ seek_end_hyps demo2 699 = false /\
+  fst (fst (let s' := snd (pcm_seek demo4 900) in read_float (read_fuel s') s' 64)) = 0.
+Proof. vm_compute. repeat split. Qed.
